@@ -817,6 +817,12 @@ for _c in (0, 1, 2, 3):
 O(id='SEQUENCE_encode_oer.cbfail', props=['C07'], kind='bounded', entry='h_SEQUENCE_encode_oer', functions=['SEQUENCE_encode_oer', 'asn_put_few_bits', 'asn_put_aligned_flush', 'oer_open_type_put'],
   unwind=22, cbmc=['--no-malloc-may-fail'], bound='as SEQUENCE_encode_oer, the output callback refuses one call (any of the first 9)', min_props=60, timeout=900, **dict(SQE, defines=['VF_CB_CAP=20', 'VF_OER_FAIL=1']))
 
+O(id='CHOICE_encode_oer.cbfail', props=['C07'], kind='bounded', entry='h_CHOICE_encode_oer', functions=['CHOICE_encode_oer', 'oer_put_tag', 'oer_open_type_put'],
+  unwind=10, cbmc=['--no-malloc-may-fail'], bound='extensible CHOICE of stub alternatives; the output callback refuses one call (any of the first 5)', min_props=60, timeout=900, **dict(CHO, defines=['VF_X=1', 'VF_N=6', 'VF_CB_CAP=8', 'VF_FAIL=1']))
+O(id='SET_OF_encode_oer.cbfail', props=['C07'], kind='bounded', entry='h_SET_OF_oer_roundtrip', functions=['SET_OF_encode_oer', 'oer_put_quantity'],
+  unwind=6, cbmc=['--unwindset', 'realloc.0:66,oer_fetch_length.0:10,oer_fetch_length.1:10,oer_fetch_quantity.0:10,oer_fetch_quantity.1:10,vf_cb.0:14,oer_put_quantity.0:10', '--no-malloc-may-fail'],
+  bound='list of 2 stub elements; the output callback refuses one call (any of the first 5)', min_props=40, timeout=600, **dict(SQF, defines=['VF_CB_CAP=12', 'VF_COUNT=2', 'VF_FAIL=1']))
+
 for _o in OBLIGATIONS:
     if _o.get('enforce') and _o.get('kind') in ('enforce', 'width') and _o.get('tier') == 'quick' and 'C19' not in _o['props']:
         _o['props'] = _o['props'] + ['C19']
